@@ -32,7 +32,10 @@ META = {
     "technique": "exhaustive single-character injection (all 256 byte values + non-Latin-1 code points x 3 positions) through "
                  "every header-producing API on the real server; head split independently on CRLF + strict response reader + "
                  "second request on the same connection",
-    "level_text": "All byte values 0..255 and 6 non-Latin-1 code points at start/middle/end of benign strings through 30 API "
+    "level_text": "All byte values 0..255 and 30 non-Latin-1 code points (incl. every code point whose Unicode case mapping is "
+                  "pure ASCII: long s, dotless i, Kelvin sign, sharp s, ff..st ligatures, and NFKC look-alikes) at start/middle/end "
+                  "(names: also at the start of a dash-separated word) of benign strings, plus look-alike spellings of real header "
+                  "names (Set-Cookie, Content-Length, Transfer-Encoding ...) through 30 API "
                   "paths (set_header/add_header name and value as str/bytes, int, datetime, set_status reason, HTTPError reason, "
                   "redirect, set_cookie name/value/domain/path/samesite/extra attribute, clear_cookie, set_signed_cookie, "
                   "set_default_headers, raw write_headers with HTTPHeaders built by add vs []=, raw reason); thorough adds "
@@ -45,8 +48,9 @@ META = {
     "design_ref": "DESIGN.md §4 C07",
     "engine": "wire",
 }
-RULE = ("a case is (API path, payload) with payload = benign base string with one character (every byte value, 6 non-Latin-1 "
-        "code points; thorough: pairs of specials and random strings) inserted at start/middle/end; non-trivial when the payload "
+RULE = ("a case is (API path, payload) with payload = benign base string with one character (every byte value, 30 non-Latin-1 "
+        "code points incl. all whose case mapping is ASCII; thorough: pairs of specials and random strings) inserted at "
+        "start/middle/end (names: also after a dash), or a look-alike spelling of a real header name; non-trivial when the payload "
         "contains a byte < 0x20, 0x7f, ':' , ';' or a non-ASCII character; distinct by (path, payload)")
 FLOORS = {"quick": 8000, "thorough": 100000}
 ASSUMPTIONS = ["strict response reader is correct", "table of intended lines per API path is correct",
@@ -56,6 +60,15 @@ REQUIRED_COUNTERS = ["oracle_evals", "accepted_exact", "rejected_with_error_resp
 BODY = b"BODY-OK"
 FRAMEWORK = {"server", "content-type", "date", "etag", "content-length", "connection", "vary"}
 UNI = ["Ā", " ", "－", "\U0001f600", "čĊ", "嘊"]   # incl. chars whose low byte is CR/LF
+# Non-ASCII code points that a Unicode *case mapping* (lower/upper/title/casefold/capitalize) turns into pure ASCII
+# (the complete set: scanned over all of Unicode), and a sample of code points that a *compatibility normalisation*
+# (NFKC/NFKD) turns into ASCII.  A name/value containing one of them is not the ASCII string it maps to: if it is
+# accepted, the line on the wire must still be the intended one, never the ASCII look-alike.
+CASEMAP_ASCII = ["\u00df", "\u0131", "\u017f", "\u1e9e", "\u212a", "\ufb00", "\ufb01", "\ufb02", "\ufb03", "\ufb04",
+                 "\ufb05", "\ufb06"]
+NFK_ASCII = ["\uff33", "\uff53", "\uff0d", "\uff1a", "\u00aa", "\u00b2", "\u2170", "\u2102", "\u24c8", "\U0001d412",
+             "\u2024", "\ufe55", "\u037e"]
+UNI = UNI + [c for c in CASEMAP_ASCII + NFK_ASCII if c not in UNI and ord(c) > 255]
 
 
 def enc_str(p):
@@ -142,7 +155,8 @@ PATH_IDS = sorted(k for k, v in PATHS.items() if v["pt"] != "fixed")
 def payloads_for(pt, role):
     """(label, payload) for single-character insertion at 3 positions."""
     if role == "name":
-        bases = [("", "X-Nm"), ("X-N", "m"), ("X-Nm", "")]
+        # start of the name, inside a word, end, and start of a dash-separated word (Http-Header-Case title-cases there)
+        bases = [("", "X-Nm"), ("X-N", "m"), ("X-Nm", ""), ("X-", "nm")]
     elif role == "cookie":
         bases = [("", "ab"), ("a", "b"), ("ab", "")]
     else:
@@ -159,10 +173,14 @@ def payloads_for(pt, role):
                 yield s.encode("latin-1")
             else:
                 yield s
+        if pt == "bytes":
+            for c in CASEMAP_ASCII:         # multi-byte UTF-8 forms of the look-alikes
+                yield (pre + c + post).encode("utf-8")
 
 
 SPECIALS = ["\r", "\n", "\x00", "\r\n", "\t", " ", ":", ";", ",", "=", '"', "\\", "\x0b", "\x0c", "\x1f", "\x7f", "\x80", "\x85",
             "\xa0", "\xff", "Ā", " ", " ", "Ċ", "č"]
+SPECIALS = SPECIALS + ["\u017f", "\u212a", "\ufb01", "\u0131", "\uff33"]     # case-map / NFKC to ASCII letters
 
 
 def rand_payload(rng, pt, role):
@@ -180,13 +198,64 @@ def rand_payload(rng, pt, role):
     return s
 
 
+LOOKALIKE_TARGETS = ["Set-Cookie", "Content-Length", "Transfer-Encoding", "Location", "Connection", "Content-Type",
+                     "X-Secret", "X-Token", "File-Name", "Id", "Status", "Www-Authenticate", "Office", "X-Fflags", "Kiss"]
+NAME_PATHS = ["set_header.name.str", "add_header.name.str", "set_header.name.bytes", "set_default_headers.name",
+              "raw.add.name", "raw.setitem.name"]
+
+
+def _ascii_images(c):
+    """Lower-cased pure-ASCII images of code point c under the Unicode case mappings and NFKC/NFKD."""
+    import unicodedata
+    out = set()
+    for f in ("lower", "upper", "title", "casefold", "capitalize", "swapcase"):
+        out.add(getattr(c, f)())
+    for f in ("NFKC", "NFKD"):
+        out.add(unicodedata.normalize(f, c))
+    return sorted({x.lower() for x in out if x and x.isascii()})
+
+
+def lookalike_names():
+    """Every spelling of a target header name in which one (or every) occurrence of an ASCII substring is replaced by a
+    non-ASCII code point that case-maps / normalises to it, in the target's own, lower and upper case."""
+    subs = []
+    for c in CASEMAP_ASCII + NFK_ASCII:
+        for img in _ascii_images(c):
+            subs.append((img, c))
+    seen = set()
+    for t in LOOKALIKE_TARGETS:
+        for form in (t, t.lower(), t.upper()):
+            low = form.lower()
+            for img, c in subs:
+                start = 0
+                hits = []
+                while True:
+                    k = low.find(img, start)
+                    if k < 0:
+                        break
+                    hits.append(k)
+                    start = k + 1
+                for k in hits:
+                    v = form[:k] + c + form[k + len(img):]
+                    if v not in seen:
+                        seen.add(v)
+                        yield v
+                if len(hits) > 1 and len(img) == 1:
+                    v = "".join(c if ch.lower() == img else ch for ch in form)
+                    if v not in seen:
+                        seen.add(v)
+                        yield v
+
+
 def EXHAUSTIVE(tier):
-    return ("every byte value 0..255 (str and bytes) and 6 non-Latin-1 code points, each at start/middle/end of the benign "
-            "base string, through each of %d API paths" % len(PATH_IDS))
+    return ("every byte value 0..255 (str and bytes) and %d non-Latin-1 code points (all code points whose case mapping is "
+            "pure ASCII among them), each at start/middle/end of the benign base string (names: also after a dash), through "
+            "each of %d API paths" % (len(UNI), len(PATH_IDS)))
 
 
 def shards(tier, seed):
     out = [{"kind": "exh", "path": pid} for pid in PATH_IDS]
+    out.append({"kind": "lookalike"})
     if tier == "thorough":
         for pid in PATH_IDS:
             out.append({"kind": "pairs", "path": pid})
@@ -204,6 +273,15 @@ def gen_cases(spec):
         if spec["path"] == PATH_IDS[0]:
             for pid, v, want in FIXED:
                 yield {"path": pid, "payload": v, "want": want}
+    elif spec["kind"] == "lookalike":
+        for name in lookalike_names():
+            for pid in NAME_PATHS:
+                if PATHS[pid]["pt"] == "bytes":
+                    yield {"path": pid, "payload": name.encode("utf-8")}
+                    if all(ord(ch) < 256 for ch in name):
+                        yield {"path": pid, "payload": name.encode("latin-1")}
+                else:
+                    yield {"path": pid, "payload": name}
     elif spec["kind"] == "pairs":
         p = PATHS[spec["path"]]
         pre, post = {"name": ("X-N", "m"), "cookie": ("a", "b")}.get(p["role"], ("v", "X-Inj: 1"))
@@ -234,6 +312,14 @@ def directed_cases():
     yield {"path": "raw.setitem.value", "payload": "a\x00b"}
     yield {"path": "set_header.value.str", "payload": "v\r\nX-Inj: 1"}
     yield {"path": "redirect.url", "payload": "/a\r\nX-Inj: 1"}
+    # non-ASCII letters whose case mapping is ASCII: never the ASCII look-alike name on the wire
+    yield {"path": "set_header.name.str", "payload": "\u017fet-Cookie"}
+    yield {"path": "add_header.name.str", "payload": "x-\u017fecret"}
+    yield {"path": "set_header.name.str", "payload": "\ufb01le-Name"}
+    yield {"path": "add_header.name.str", "payload": "\u0131d"}
+    yield {"path": "set_header.name.str", "payload": "x-to\u212aen"}
+    yield {"path": "raw.setitem.name", "payload": "\u00dfet-Cookie"}
+    yield {"path": "raw.add.name", "payload": "Tran\u017ffer-Encoding"}
 
 
 # ---------------------------------------------------------------------------
@@ -592,7 +678,14 @@ def run_case(case, ctx):
         # (field names are case-insensitive only for ASCII; such names are outside the token grammar anyway)
         def cf(pairs):
             return sorted((n.decode("latin-1").casefold(), v) for n, v in pairs)
-        if cf(got) == cf(want):
+
+        def differs_only_in_non_ascii_bytes(g, w):
+            # field names are case-insensitive for ASCII letters only: a wire name that has an ASCII byte where the
+            # intended name has a non-ASCII one (or another length) IS a different header name
+            return len(g) == len(w) and all(
+                gv == wv and len(gn) == len(wn) and all(a == b or (a >= 0x80 and b >= 0x80) for a, b in zip(gn, wn))
+                for (gn, gv), (wn, wv) in zip(g, w))
+        if cf(got) == cf(want) and differs_only_in_non_ascii_bytes(got, want):
             ctx.count("unspecified_non_ascii_name_case_mapping")
             return
     if got != want:
